@@ -58,7 +58,7 @@ class Arm:
         self.check = check
         self.signature = signature  # case -> iterable of known-class names (input based)
         self.budget = budget or {"quick": 200, "thorough": 2000}
-        self.shards = shards or {"quick": NPROC, "thorough": NPROC * 4}
+        self.shards = shards or {"quick": max(1, NPROC // 2), "thorough": NPROC * 4}
         self.shrink = shrink
         self.doc = doc
         self.min_per_shard = min_per_shard
